@@ -33,6 +33,9 @@ type HTTPCase struct {
 	// multipart only: MultipartMixed.DeliveryTimeout (how long incremental payloads are batched), 0 = default
 	// websocket only: after the operation ended, start this one on the SAME connection under the SAME id
 	Then              string `json:"then,omitempty"`
+	// websocket only: Websocket.InitFunc answers with a context that is NOT derived from the request's (a
+	// server that builds its per-connection context itself, e.g. after authenticating the init payload)
+	DetachedInit bool `json:"detachedInit,omitempty"`
 	DeliveryTimeoutMs int  `json:"deliveryTimeoutMs,omitempty"`
 	FullBody          bool `json:"fullBody,omitempty"` // report the body whatever its size
 }
@@ -170,7 +173,13 @@ func RunHTTP(es graphql.ExecutableSchema, c HTTPCase) HTTPResult {
 func RunWS(es graphql.ExecutableSchema, c HTTPCase) HTTPResult {
 	st := &State{Plan: c.Plan, Schema: es.Schema(), CancelAt: int64(c.CancelAt)}
 	srv := handler.New(es)
-	srv.AddTransport(transport.Websocket{})
+	wst := transport.Websocket{}
+	if c.DetachedInit {
+		wst.InitFunc = func(ctx context.Context, p transport.InitPayload) (context.Context, *transport.InitPayload, error) {
+			return WithState(context.Background(), st), &p, nil
+		}
+	}
+	srv.AddTransport(wst)
 	srv.SetRecoverFunc(func(ctx context.Context, err any) error {
 		st.mu.Lock()
 		st.Recov++
